@@ -1,6 +1,6 @@
 """Which rules exist, which properties are claimed, their floors and evidence texts."""
 
-RULE_MODULES = ['descent', 'null', 'live', 'gate']
+RULE_MODULES = ['descent', 'null', 'live', 'gate', 'alloc', 'immobile', 'reset']
 
 # rules whose instance set legitimately differs between debug and release-like MIR
 CONFIG_DEPENDENT_RULES = {'PANICSITE'}
@@ -119,3 +119,33 @@ state-changing call between gate and use; in the list every search is dominated 
 and the min_exp shortcut is a maintained lower bound [GATE, LIVE].""",
      ["C02 (removal inside a gate leaves a valid tree)"],
      {'GATE': 20, 'LIVE': 6})
+
+prop('C12', """
+Static analysis (MIR/SSA). Decided clause: for each of the seven collections and each of its fields, clear brings the
+field to the value new gives it on every path (trees: root == EMPTY_REF at every return, by a must-dataflow; lists:
+buffer.clear() dominates every return; segment tree: every bucket list is cleared by a full iter_mut loop with no
+adapter and no early exit, through Chunk::clear which clears its vector), or the field is never written after
+construction (layout), or it is a reasoned exemption (the arena behind an empty root; its slot accounting is C11)
+[RESET]. Not decided: behavioural indistinguishability of suffix histories (handle numbering after clear differs from
+a fresh instance and is unobservable only up to renaming).""",
+     ["C11 (clear returns every slot)"],
+     {'RESET': 12})
+
+prop('C17', """
+Static analysis (call-graph closure + MIR stores). Decided clause (sufficient and necessary for slot content, given
+POOL/C11 and the Vec::resize contract): in the call-graph closure of MapTree::insert and SetTree::insert the only
+writes to a node payload target the slot returned by the allocator in the same function; no mutable reference to a
+stored payload is passed to foreign code; no element of the arena vector is moved; lookups take &self and the
+collection types contain no interior mutability [IMMOBILE].""",
+     ["C11 (a slot taken from the allocator is not in use)", "Vec::resize appends without moving elements observably (indices are stable)"],
+     {'IMMOBILE': 6})
+
+prop('C19', """
+Static analysis (symbolic size forms over MIR/SSA). Decided clause (sufficient and necessary for the bound, given that
+buffer.len() - unused.len() - 1 is the entry count, which is C11): every allocation reachable from into_ordered_vec has
+a size that is a constant, a loop counter with constant step (bounded by the path walked), or affine in vector lengths;
+the capacity of the returned vector is a small multiple of (arena length - free-list length), never the arena length
+alone (peak), never a shift by a non-constant or a product of non-constants; the list variant collects over an
+exact-size iterator of its buffer [ALLOC].""",
+     ["C11 (slots in use = entries + sentinel)"],
+     {'ALLOC': 3})
